@@ -229,6 +229,8 @@ class Loader:
 
 class _IntMeta(type):
     def __instancecheck__(cls, x):
+        if isinstance(x, core.SNpInt):
+            return False
         return isinstance(x, (int, SInt, SBool))
 
 
